@@ -168,19 +168,48 @@ def arg_precedence(ctx):
                   "the int() conversion of timeout is guarded by `%s`, not by the merged arguments holding a timeout: a timeout inherited from <%%page> reaches the backend as a string" % (src(gd[0].test) if gd else "nothing"), "converted whenever the merged arguments hold a timeout, after both sources were merged")
     ctx.check(bool(to) and isinstance(to[0].value, ast.Call) and dotted(to[0].value.func) == "int", "timeout-int", db.where(to[0]) if to else db.where(wc), "timeout is not converted with int()", "timeout -> int")
     gk = db.func("cache.Cache._get_cache_kw")
-    seqs = []
-    for n in walk_func(gk):
-        if isinstance(n, ast.Assign) and src(n.value) == "self.template.cache_args.copy()":
-            blk = getattr(n, "_parent", None)
-            body = blk.body if n in getattr(blk, "body", []) else getattr(blk, "orelse", [])
-            i = body.index(n)
-            nxt = body[i + 1] if i + 1 < len(body) else None
-            seqs.append((n, nxt))
-    ctx.require(seqs, "_get_cache_kw: template cache_args copy not found")
-    wrong = [n for n in walk_func(gk) if isinstance(n, ast.Call) and isinstance(n.func, ast.Attribute) and n.func.attr == "update" and n.args and "cache_args" in src(n.args[0])]
-    ctx.check(len(seqs) >= 2 and not wrong, "template-then-call.all-branches", db.where(gk), "a branch of _get_cache_kw lets Template cache_args override the call's arguments (%d copy-then-update sequences, %d reversed updates)" % (len(seqs), len(wrong)), "both branches: copy of Template cache_args updated with the call's kwargs")
-    for n, nxt in seqs:
-        ctx.check(nxt is not None and src(nxt) == "%s.update(%s)" % (src(n.targets[0]), pn(gk, 1)), "template-then-call:%d" % seqs.index((n, nxt)), db.where(n), "Template cache_args are not overridden by the call's keyword arguments", "cache_args.copy() then update(kw)")
+    # on every path: what is returned (and what is memoized per section) is a copy of the Template's cache_args updated with the
+    # call's keyword arguments, or the memoized result of exactly that
+    kwp = pn(gk, 1)
+    tca = pn(gk, 0) + ".template.cache_args"
+    copies = [n for n in walk_func(gk) if isinstance(n, ast.Call) and src(n) == tca + ".copy()"]
+    ctx.require(copies, "_get_cache_kw: template cache_args copy not found")
+    paths = branch_paths(gk.body)
+    bad, n_merge = [], 0
+    for p in paths:
+        kind = {}
+        for s in p.stmts:
+            if isinstance(s, ast.Assign) and len(s.targets) == 1 and isinstance(s.targets[0], ast.Name):
+                v, t = s.value, s.targets[0].id
+                if src(v) == tca + ".copy()":
+                    kind[t] = "template-copy"
+                elif isinstance(v, ast.Name):
+                    kind[t] = kind.get(v.id)
+                elif isinstance(v, ast.Subscript) and src(v.value).endswith("._def_regions"):
+                    kind[t] = "memo"
+                elif P.matches(v, "$x.copy()") and isinstance(v.func.value, ast.Name):
+                    kind[t] = kind.get(v.func.value.id)
+                elif P.matches(v, "dict(%s, **%s)" % (tca, kwp)) or P.matches(v, "{**%s, **%s}" % (tca, kwp)):
+                    kind[t] = "merged"
+                elif P.matches(v, "%s.pop($k, $d)" % kwp) or P.matches(v, "%s.pop($k)" % kwp):
+                    pass
+                else:
+                    kind[t] = None
+            elif isinstance(s, ast.Assign) and isinstance(s.targets[0], ast.Subscript) and src(s.targets[0].value).endswith("._def_regions"):
+                if not (isinstance(s.value, ast.Name) and kind.get(s.value.id) == "merged"):
+                    bad.append((s, "what is memoized for the section is not the merged arguments"))
+            elif isinstance(s, ast.Expr) and isinstance(s.value, ast.Call) and isinstance(s.value.func, ast.Attribute) and s.value.func.attr == "update" and isinstance(s.value.func.value, ast.Name):
+                t, a = s.value.func.value.id, s.value.args[0] if s.value.args else None
+                if kind.get(t) == "template-copy" and a is not None and src(a) == kwp:
+                    kind[t] = "merged"
+                    n_merge += 1
+                elif a is not None and "cache_args" in src(a):
+                    bad.append((s, "the Template's cache_args are applied over the call's arguments"))
+                    kind[t] = None
+            elif isinstance(s, ast.Return):
+                if not (isinstance(s.value, ast.Name) and kind.get(s.value.id) in ("merged", "memo")):
+                    bad.append((s, "a path returns arguments that are not the Template's cache_args overridden by the call's (%s)" % (kind.get(s.value.id) if isinstance(s.value, ast.Name) else src(s.value))))
+    ctx.check(not bad, "template-then-call.all-branches", db.where(bad[0][0]) if bad else db.where(gk), "a branch of _get_cache_kw lets Template cache_args override the call's arguments or drops them: %s" % (bad[0][1] if bad else ""), "on all %d paths: copy of Template cache_args updated with the call's kwargs, or its memo" % len(paths))
     ifs = [n for n in walk_func(gk) if isinstance(n, ast.If) and "pass_context" in src(n.test)]
     ctx.check(P.has(gk, "if $c and self.impl.pass_context:\n    $k = $k.copy()\n    $k.setdefault('context', $c)"), "context-on-request", db.where(ifs[0]) if ifs else db.where(gk),
               "the context is not passed exactly when the implementation asks (on a private copy of the kwargs)", "context added on a copy iff impl.pass_context")
